@@ -195,6 +195,29 @@ pub mod verif_hooks {
     pub static VISITS_RECURSION: AtomicU64 = AtomicU64::new(0);
     pub static VISITS_DIRECTIVES: AtomicU64 = AtomicU64::new(0);
 
+    /// Steps of the validation rules' own fragment-graph walks: [0] loop iterations
+    /// of OverlappingFieldsCanBeMerged's FindConflicts::find, [1] loop iterations of
+    /// NoFragmentCycles' CycleDetector::detect_from, [2] calls of
+    /// NoUndefinedVariables::find_undef_vars, [3] calls of
+    /// NoUnusedVariables::find_used_vars, [4] calls of
+    /// NoUnusedFragments::find_reachable_fragments.
+    pub static RULE_STEPS: [AtomicU64; 5] = [
+        AtomicU64::new(0),
+        AtomicU64::new(0),
+        AtomicU64::new(0),
+        AtomicU64::new(0),
+        AtomicU64::new(0),
+    ];
+
+    /// Read and reset the rule-step counters.
+    pub fn take_rule_steps() -> [u64; 5] {
+        let mut out = [0u64; 5];
+        for (o, c) in out.iter_mut().zip(RULE_STEPS.iter()) {
+            *o = c.swap(0, Ordering::SeqCst);
+        }
+        out
+    }
+
     /// Read and reset the three counters (validation visitor, recursion-depth
     /// walker, directive-limit walker).
     pub fn take_visits() -> (u64, u64, u64) {
